@@ -13,6 +13,10 @@ BIG = 8  # limit used for the C02 scripts: capacity is never the issue here (C09
 
 def run(ctx):
     if ctx.replay:
+        d = json.load(open(ctx.replay))["replay"]
+        if d.get("driver") == "drv_pipeline":
+            import pipeline_part
+            return pipeline_part.replay(ctx, d)
         return pc.replay(ctx, TRACE_CFG)
     T = ctx.thorough()
     rng = random.Random(ctx.seed)
@@ -93,7 +97,10 @@ def run(ctx):
     rej = pc.validate(ctx, recs, TRACE_CFG, "C02", max_reject=5)
     by_sig = pc.report(ctx, recs, rej, TRACE_CFG)
     st = pc.steering_stats(ctx, recs)
-    ctx.cov["evaluations"] = len(recs)
+    # ---- queries queued while a pipeline connection is dialing (conn_lazy_dial.go)
+    import pipeline_part
+    n_pipe = pipeline_part.run_c02(ctx, rng)
+    ctx.cov["evaluations"] = len(recs) + n_pipe
     nontriv = set()
     for r, m in zip(recs, meta):
         if m["beh"] is not None and r["steered"] and (m["early"] or m["race"]):
